@@ -380,7 +380,9 @@ def evaluate(ck, sc, out, ra, dec, t, g, cases, meta, A0, A1, R, label, fitsrc_i
     w_all = W.combined(sc['wim'], sc['wref'], n)
     npos = n if w_all is None else int(np.sum(w_all > 0))
     if (sc['stream'] != 'noisy' and sc['geom'] in ('rshift', 'rscale') and nclip > 0 and len(fitsrc_idx) == 2 < npos
-            and np.linalg.det(m) * np.linalg.det(sc['M']) < 0):
+            and np.linalg.det(m) * np.linalg.det(sc['M']) < 0 and np.linalg.det(sc['M']) < 0):
+        # known finding K6: only when the TRUE map is a reflection (since fix e16505e a two-source similarity fit
+        # returns the proper rotation; a flipped result for a proper true map is a plain violation)
         rp['finding'] = 'K3'
         rp['input_class'] = ('noise-free similarity data, >= 3 non-collinear positively weighted sources, nclip > 0: the '
                              'residuals of the first fit are rounding noise, clipping at sigma*rmse of that noise '
